@@ -25,7 +25,8 @@ REQUIRED = ["KV.C20.read_eq", "KV.C20.write_read", "KV.C20.write_frame", "KV.C20
             "KV.C20.scan_diverges_iff", "KV.C20.run_refines_map", "KV.C20.run_refines_map_from_empty",
             "KV.C20.double_preserves", "KV.C20.auto_refines_map", "KV.C20.auto_refines_map_real",
             "KV.C20.theta_real_ok", "KV.C20.power2_next_eq", "KV.C20.power2_ideal_eq", "KV.C20.power2_ctor_iff",
-            "KV.C20.power2_ops_eq", "KV.C20.roundBuckets", "KV.C20.double_without_rollover_loses"]
+            "KV.C20.power2_ops_eq", "KV.C20.power2_double_eq", "KV.C20.auto_refines_map_power2",
+            "KV.C20.roundBuckets", "KV.C20.double_without_rollover_loses"]
 
 
 # ---------------------------------------------------------------- generators: bit fields
@@ -273,13 +274,17 @@ def gen_keys(rng, n_keys, N, kind, c, invalid):
     return style, keys
 
 
-def gen_probing_fixed(rng):
+def gen_probing_fixed(rng, big=False):
     """Script on a fixed-size table.  Returns ops, oracle [(index, expected-with-positions-erased)], meta."""
     md = rng.choice(["div", "div", "p2"])
     if md == "div":
         N = rng.choice([1, 2, 3, 4, 5, 6, 7, 8, 11, 13, 16, 24, 33, rng.randrange(2, 70)])
+        if big:
+            N = rng.randrange(70, 700)
     else:
         N = rng.choice([1, 2, 4, 8, 16, 32, 64])
+        if big:
+            N = rng.choice([128, 256, 512])
     invalid = rng.choice([0, 0, 1, M64, rng.getrandbits(64), rng.randrange(0, 8)])
     kind = rng.choice(["id", "id", "id", "mul", "shr"])
     c = (rng.getrandbits(64) | 1) if kind == "mul" else rng.choice([0, 1, 2, 3, 5]) if kind == "shr" else 0
@@ -311,6 +316,9 @@ def gen_probing_fixed(rng):
                 return k
         return None
     n_ops = rng.randrange(1, 4 * N + 8)
+    if big:
+        n_keys = rng.randrange(N // 2, 2 * N)
+        n_ops = rng.randrange(2 * N, 3 * N)
     for _ in range(n_ops):
         r = rng.random()
         can_double = plan == "double" and curN <= 512 and doublings < 5
@@ -367,12 +375,24 @@ def gen_probing_fixed(rng):
             emit("find %d" % k, "absent")
     emit("size", str(count))
     emit("pdump", "%d %d %s" % (curN, count, " ".join("%d:%d" % kv for kv in sorted(d.items()))))
-    meta = {"mod": md, "N": N, "plan": plan, "keys": len(d), "style": style, "hash": kind, "c": c, "doublings": doublings,
+    dup = False
+    if order and rng.random() < 0.08:
+        # outside the contract ("Multiple insertions won't cause a failure, just inconsistent lookup"): a second Insert
+        # of a present key; the oracle stops judging here, model and implementation are still compared line by line
+        dup = True
+        k = rng.choice(order)
+        emit("ins %d %d" % (k, rng.getrandbits(8)), None)
+        for q in rng.sample(order, min(len(order), 4)) + [k]:
+            emit("find %d" % q, None)
+        emit("foi %d 1" % k, None)
+        emit("size", None)
+        emit("pdump", None)
+    meta = {"mod": md, "dup": dup, "N": N, "plan": plan, "keys": len(d), "style": style, "hash": kind, "c": c, "doublings": doublings,
             "fulls": fulls, "invalid0": invalid == 0}
     return ops, oracle, meta
 
 
-def gen_probing_auto(rng):
+def gen_probing_auto(rng, big=False):
     init = rng.choice([0, 0, 1, 2, 3, 5, 6, 7, 10, 13, 20, 27, 100, rng.randrange(0, 300)])
     invalid = rng.choice([0, 0, 1, M64, rng.getrandbits(64)])
     kind = rng.choice(["id", "id", "mul", "shr"])
@@ -383,7 +403,9 @@ def gen_probing_auto(rng):
         oracle.append((len(ops), want))
         ops.append(op)
     emit("anew %d %d %s %d" % (init, invalid, kind, c), None)
-    n_keys = rng.choice([0, 1, 2, 3, 8, 20, 40, 100, rng.randrange(0, 400)])
+    n_keys = rng.choice([1, 3, 8, 20, 40, 100, rng.randrange(0, 400)])
+    if big:
+        n_keys = rng.randrange(400, 3000)
     # clusters that wrap around the end of the table at several sizes: ideals just below powers of two
     keys, seen = [], {invalid}
     style = rng.choice(["wraps", "wraps", "collide", "wide", "mixed"])
@@ -429,6 +451,13 @@ def gen_probing_auto(rng):
         emit("afind %d" % k, "found %d" % d[k])
     emit("asize", str(len(d)))
     emit("adump", None)
+    if order and rng.random() < 0.08:
+        k = rng.choice(order)      # duplicate Insert: outside the contract, compared with the model only
+        emit("ains %d %d" % (k, rng.getrandbits(8)), None)
+        for q in rng.sample(order, min(len(order), 4)) + [k]:
+            emit("afind %d" % q, None)
+        emit("asize", None)
+        emit("adump", None)
     meta = {"init": init, "keys": len(d), "style": style, "hash": kind, "c": c, "invalid0": invalid == 0, "items": sorted(d.items())}
     return ops, oracle, meta
 
@@ -553,7 +582,8 @@ def probing_stream(ctx, hexe, dexe, n_cases):
         if n_viol >= 3:
             break
         auto = ctx.rng.random() < 0.4
-        ops, _, meta = (gen_probing_auto if auto else gen_probing_fixed)(ctx.rng)
+        big = ctx.tier == "thorough" and ctx.rng.random() < 0.03
+        ops, _, meta = (gen_probing_auto if auto else gen_probing_fixed)(ctx.rng, big)
         # exceeding capacity must raise, not loop: hard timeout on the real code
         rc1, o1, e1 = stream.run_lines(hexe, ops, timeout=20)
         rc2, o2, e2 = stream.run_lines(dexe, ops, timeout=120)
@@ -580,6 +610,7 @@ def probing_stream(ctx, hexe, dexe, n_cases):
         ctx.hist("probing.wrapped_cluster", wrapped)
         ctx.hist("probing.hash", meta["hash"])
         ctx.hist("probing.invalid_is_zero", meta["invalid0"])
+        ctx.hist("probing.big", big)
         if not auto:
             ctx.hist("probing.mod", meta["mod"])
             ctx.hist("probing.plan", meta["plan"])
